@@ -57,6 +57,13 @@ theorem runStep_adv : ∀ st : Step, PAdv (runStep st)
     intro c s
     unfold runStep
     exact readInt_then_adv 4 (fun n s' => iter_adv (runSteps_adv body) n.toNat c s') s
+  | .arrB elem body => by
+    intro c s
+    unfold runStep
+    refine readInt_then_adv 4 (fun n s' => ?_) s
+    split
+    · exact Adv.refl s'
+    · exact iter_adv (runSteps_adv body) n.toNat c s'
   | .ifGe v body => by
     intro c s
     unfold runStep
@@ -221,6 +228,14 @@ theorem runStep_nok : ∀ st : Step, st.hasFail = false → PNoK (runStep st)
     unfold runStep
     have hb : hasFailList body = false := by simpa [Step.hasFail] using h
     exact readInt_then_nok 4 (fun n s' => iter_nok (runSteps_nok body hb) n.toNat c s') s
+  | .arrB elem body, h => by
+    intro c s
+    unfold runStep
+    have hb : hasFailList body = false := by simpa [Step.hasFail] using h
+    refine readInt_then_nok 4 (fun n s' => ?_) s
+    split
+    · rfl
+    · exact iter_nok (runSteps_nok body hb) n.toNat c s'
   | .ifGe v body, h => by
     intro c s
     unfold runStep
@@ -398,10 +413,8 @@ theorem discardN_all_fail {s s2 : RS} {e : Err} (h : discardN (↑s.sz) s = (.er
       exact ⟨by rw [← h.2], hlt⟩
     · simp at h
 
-/-- fetch, the frame being fully on the stream: not failed ⇒ frame fully consumed.
-`hwf`: a response at the high watermark (hwm = fetch offset) carries an empty message set. -/
+/-- fetch, the frame being fully on the stream: not failed ⇒ frame fully consumed. -/
 theorem fetchRead_full (v : Nat) (offset : Int) (b : Body) (s : RS) (hb : b.Conserves) (he : s.sz ≤ s.inp.length)
-    (hwf : ∀ c s1, runSteps (fetchHeader v) { ver := v } s = (.ok c, s1) → c.hwm = offset → s1.sz = 0)
     (hnf : (fetchRead true v offset b s).1.isFail = false) : (fetchRead true v offset b s).2.sz = 0 := by
   have hh := runSteps_adv (fetchHeader v) { ver := v } s
   unfold fetchRead at hnf ⊢
@@ -420,7 +433,9 @@ theorem fetchRead_full (v : Nat) (offset : Int) (b : Body) (s : RS) (hb : b.Cons
     | ok c =>
       simp only at hnf ⊢
       split
-      · rename_i hw; exact hwf c s1 hp hw
+      · rename_i hw
+        simp only [hw, ↓reduceIte] at hnf
+        exact drainKafka_zero 7 s1 hnf
       · rename_i hw
         simp only [hw, ↓reduceIte] at hnf
         have h1 := hb.1 s1
@@ -462,7 +477,7 @@ theorem fetchRead_adv (fixed : Bool) (v : Nat) (offset : Int) (b : Body) (s : RS
     | ok c =>
       simp only
       split
-      · exact hh
+      · exact Adv.trans hh (drainKafka_adv fixed 7 s1)
       · have h1 := hb.1 s1
         cases hf : b.first s1 with
         | mk r1 s2 =>
@@ -488,10 +503,29 @@ theorem fetchRead_adv (fixed : Bool) (v : Nat) (offset : Int) (b : Body) (s : RS
                 | mk r4 s4 => rw [hq] at hd; cases r4 <;> exact Adv.trans h3 hd
               | _ => exact h3
 
+/-- on a stream too short for the frame, a drain cannot succeed -/
+theorem drainKafka_cut (k : Int) (s1 : RS) (key : (drainKafka true k s1).2.sz = 0 → False) :
+    (drainKafka true k s1).1 ≠ .ok ∧ ((drainKafka true k s1).1.isFail = false → (drainKafka true k s1).2.inp = []) := by
+  unfold drainKafka at key ⊢
+  simp only [Bool.true_and] at key ⊢
+  split
+  · rename_i hpos
+    have hpos' : 0 < s1.sz := of_decide_eq_true hpos
+    cases hq : discardN (↑s1.sz) s1 with
+    | mk r2 s2 =>
+      rw [hq] at key
+      simp only [hpos'] at key
+      cases r2 with
+      | ok u => exact absurd (discardN_all_ok hq) (by simpa using key)
+      | error e2 => simp [Outcome.isFail]
+  · rename_i h1
+    have : s1.sz = 0 := by simpa using h1
+    simp only [h1, Bool.false_eq_true, ↓reduceIte] at key
+    exact absurd this key
+
 /-- fetch on a stream that ends before the frame does: never a complete batch; if a kafka error comes out of it
 the stream has been used up (every later operation fails). -/
-theorem fetchRead_cut (v : Nat) (offset : Int) (b : Body) (s : RS) (hb : b.Conserves) (hcut : s.inp.length < s.sz)
-    (hwf : ∀ c s1, runSteps (fetchHeader v) { ver := v } s = (.ok c, s1) → c.hwm = offset → s1.sz = 0) :
+theorem fetchRead_cut (v : Nat) (offset : Int) (b : Body) (s : RS) (hb : b.Conserves) (hcut : s.inp.length < s.sz) :
     (fetchRead true v offset b s).1 ≠ .ok ∧
     ((fetchRead true v offset b s).1.isFail = false → (fetchRead true v offset b s).2.inp = []) := by
   have hadv := fetchRead_adv true v offset b s hb
@@ -507,24 +541,7 @@ theorem fetchRead_cut (v : Nat) (offset : Int) (b : Body) (s : RS) (hb : b.Conse
     cases r with
     | error e =>
       cases e with
-      | kafka k =>
-        simp only at key ⊢
-        unfold drainKafka at key ⊢
-        simp only [Bool.true_and] at key ⊢
-        split
-        · rename_i hpos
-          have hpos' : 0 < s1.sz := of_decide_eq_true hpos
-          cases hq : discardN (↑s1.sz) s1 with
-          | mk r2 s2 =>
-            rw [hq] at key
-            simp only [hpos'] at key
-            cases r2 with
-            | ok u => exact absurd (discardN_all_ok hq) (by simpa using key)
-            | error e2 => simp [Outcome.isFail]
-        · rename_i h1
-          have : s1.sz = 0 := by simpa using h1
-          simp only [h1, Bool.false_eq_true, ↓reduceIte] at key
-          exact absurd this key
+      | kafka k => exact drainKafka_cut k s1 key
       | shortRead => simp [Outcome.isFail]
       | eof => simp [Outcome.isFail]
       | unexpectedEOF => simp [Outcome.isFail]
@@ -535,7 +552,7 @@ theorem fetchRead_cut (v : Nat) (offset : Int) (b : Body) (s : RS) (hb : b.Conse
       split
       · rename_i hw
         simp only [hw, ↓reduceIte] at key
-        exact absurd (hwf c s1 hp hw) key
+        exact drainKafka_cut 7 s1 key
       · rename_i hw
         simp only [hw, ↓reduceIte] at key
         cases hf : b.first s1 with
